@@ -44,4 +44,24 @@ func fbb.readSection(reader, readN) (buf, err)
 func fbb.trimLeftSpace(r) ()
   props C03
   requires reader: r != nil
+
+# ---- message construction API as used by other packages ----
+func fbb.NewMessage(t, mycall) (m)
+  props C09
+  trusted
+  ensures nonnil: m != nil
+
+# SetBody fails only if the default charset (ISO-8859-1) is not registered
+func fbb.(*Message).SetBody(m, body) (err)
+  props C09
+  trusted
+  ensures charset-registered: err == nil
+
+func fbb.(*Message).SetSubject(m, str) ()
+  props C09
+  trusted
+
+func fbb.(*Message).AddTo(m, addr) ()
+  props C09
+  trusted
 @*/
